@@ -483,6 +483,11 @@ def run(ctx):
         ctx.known_hits.append(why)
 
 
+def DualProductCone_(y, K):
+    from sageopt.coniclifts.constraints.set_membership.product_cone import DualProductCone
+    return DualProductCone(y, K)
+
+
 def oracle_later_arguments(rng):
     """a Variable that occurs ONLY in the second argument of relent, or only in a later component of a vector2norm argument, is a
     Variable of the compiled system: it has columns, and a solve loads a value into it"""
@@ -502,6 +507,30 @@ def oracle_later_arguments(rng):
         st, val = cl.Problem(cl.MIN, ya[0] + ya[1] - za[0], cons + [ya >= -1, za <= 1]).solve(verbose=False)
         if st == 'solved' and not (np.all(np.isfinite(ya.value)) and np.all(np.isfinite(za.value))):
             return 'after a solve the Variables la_y / la_z hold %s / %s' % (ya.value, za.value)
+        # arrays that numpy itself stacks from several Variables (np.concatenate, np.hstack, np.stack keep the Python type of their inputs): every
+        # Variable with a component in the argument of a set-membership constraint is a Variable of the compiled system
+        for how in ('concatenate', 'hstack', 'stack', 'concatenate_slices'):
+            pa = cl.Variable(shape=(2,), name='mix_a_' + how)
+            pb = cl.Variable(shape=(2,), name='mix_b_' + how)
+            pc = cl.Variable(shape=(2,), name='mix_c_' + how)
+            arr = {'concatenate': lambda: np.concatenate((pa, pb, pc)), 'hstack': lambda: np.hstack((pa, pb, pc)),
+                   'stack': lambda: np.stack((pa, pb, pc)).ravel(), 'concatenate_slices': lambda: np.concatenate((pa[1:], pb, pc[:1]))}[how]()
+            m_ = int(np.size(arr))
+            for setcon in (lambda: cl.PrimalProductCone(arr, [cl.Cone('+', m_)]), lambda: DualProductCone_(arr, [cl.Cone('+', m_)])):
+                con_ = setcon()
+                A, b, K, vm, vs, _ = cl.compile_constrained_system([con_])
+                names = sorted(v.name for v in vs)
+                for v in (pa, pb, pc):
+                    if v.name not in names or v.name not in vm:
+                        return ('np.%s of three Variables as the argument of a product-cone constraint: the Variable %s has components in the argument but is '
+                                'missing from the compiled system (Variables %s)' % (how, v.name, names))
+                if A.shape[1] != m_:
+                    return 'np.%s of three Variables in a product cone over R^%d_+ compiles to %d columns' % (how, m_, A.shape[1])
+            st, val = cl.Problem(cl.MIN, pa[1] + pb[0] + pb[1] + pc[0], [cl.PrimalProductCone(arr - 1.0, [cl.Cone('+', m_)])]).solve(verbose=False)
+            vals_ = [float(pa.value[1]), float(pb.value[0]), float(pb.value[1]), float(pc.value[0])]
+            if st != 'solved' or abs(val - 4.0) > 1e-5 or not np.allclose(vals_, 1.0, atol=1e-4):
+                return ('min of four components s.t. np.%s(...) - 1 in R^m_+ reports (%s, %r) with component values %s; the optimum is 4 with every component 1'
+                        % (how, st, val, vals_))
     return None
 
 
